@@ -35,6 +35,9 @@ import (
 
 func init() {
 	props["C18"] = runC18
+	replayers["C18/retention"] = func(v rt.Violation) string {
+		return "the event is a measurement over 50,000 calls in the single-threaded retention stage: re-run ./run.sh C18 quick"
+	}
 	replayers["C18/latemsg"] = func(v rt.Violation) string {
 		c := rt.ReplayCtx("C18")
 		c.Serial("replay", func(w *rt.W) {
@@ -818,6 +821,53 @@ func c18Child(c *rt.Ctx, dir string) {
 			}
 		})
 	}()
+	// retention: a long-lived process parses many different inputs. What stays reachable after they are gone
+	// (interning tables, caches without bounds) grows with the history; measured as live heap after garbage
+	// collection around 50,000 distinct valid inputs per package, single-threaded, nothing kept by the harness.
+	func() {
+		restore := c18ApplyLimit(2)
+		defer restore()
+		c.Serial("retention", func(w *rt.W) {
+			live := func() uint64 {
+				runtime.GC()
+				runtime.GC()
+				var ms runtime.MemStats
+				runtime.ReadMemStats(&ms)
+				return ms.HeapAlloc
+			}
+			for _, pkg := range pkgs {
+				r := rt.NewRand(c.Seed, "C18/retention/"+pkg, 0)
+				var first int = -1
+				for _, ei := range byPkg[pkg] {
+					if c18Entries[ei].limited && !c18Entries[ei].pair && first < 0 {
+						first = ei
+					}
+				}
+				if first < 0 {
+					continue
+				}
+				e := &c18Entries[first]
+				before := live()
+				var fed uint64
+				const n = 50000
+				for i := 0; i < n; i++ {
+					in := c18Valid(r, pkg)
+					if pkg == "sem" { // distinct long identifiers, as build metadata with commit hashes has them
+						in = fmt.Sprintf("%d.%d.%d-%s+%s", i%7, i%11, i, r.StringFrom("abcdefghijklmnopqrstuvwxyz0123456789", 100+r.Intn(300)), r.StringFrom("0123456789abcdef", 40))
+					}
+					fed += uint64(len(in))
+					_, _ = e.call(in, "")
+				}
+				after := live()
+				w.Eval(n)
+				if bound := uint64(2<<20) + fed/8; after > before && after-before > bound {
+					w.Fail("memory-retained-across-calls:"+pkg, "retention", rt.Args("entry", e.name, "package", pkg, "calls", n, "input_bytes", fed), fmt.Sprintf("live heap grew by %d bytes over %d calls with %d bytes of distinct input", after-before, n, fed), fmt.Sprintf("<= %d (2 MiB + an eighth of the input bytes)", bound), "memory stays reachable in proportion to the inputs seen: a long-lived process runs away")
+				}
+				w.ClassN("retention-monitored-package", 1)
+			}
+		})
+	}()
+	c.Require("retention-monitored-package", 5)
 	c.Require("allocation-monitored-call", 100)
 	c.Require("long-pair-monitored-call", 30)
 
